@@ -11,6 +11,7 @@
 """
 import ast, os
 import translate as T
+import alpha
 
 
 def const_strs(node):
@@ -90,6 +91,9 @@ def wrapped_classes(fn):
     return names
 
 
+LIKE_LOCALS = {"__init__": ["path", "i", "metadata_path"], "_find_metadata_file": ["i", "path"], "_load_metadata": ["path", "obj"]}
+
+
 def generate(mods, repo):
     path = os.path.join(repo, "productmd", "compose.py")
     tree = ast.parse(open(path).read(), path)
@@ -97,6 +101,11 @@ def generate(mods, repo):
     for node in tree.body:
         if isinstance(node, ast.ClassDef) and node.name == "Compose":
             for it in node.body:
+                if isinstance(it, ast.FunctionDef):
+                    # renamed locals are read as the names the recognisers below were written for (tools/alpha.py)
+                    like = LIKE_LOCALS.get(it.name, ["paths"] if any(isinstance(d, ast.Name) and d.id == "property" for d in it.decorator_list) else None)
+                    if like is not None:
+                        it = alpha.canon_locals(it, like)
                 if isinstance(it, ast.FunctionDef) and it.name == "__init__":
                     init = init_info(it)
                 if isinstance(it, ast.FunctionDef) and it.name == "_load_metadata":
